@@ -2,8 +2,8 @@
 import itertools
 
 PID = "C16"
-SUBS = ["C16", "C16inv", "C16e2e"]
-PARALLEL = {"C16e2e": 6}
+SUBS = ["C16", "C16inv", "C16e2e", "C16res"]
+PARALLEL = {"C16e2e": 6, "C16res": 6}
 RULE = ("end to end (exhaustive): Funcs taking a pointer, a map and a slice, each as value / typed nil / untyped nil, and Funcs "
         "taking a func and a chan, run in real sessions (local, bigmachine): encodable arguments build the same slice on every "
         "executor, unencodable ones make Run fail promptly on bigmachine, nothing crashes or hangs; diff: every pair of location lists of length <= 4 over a 3-letter alphabet (exhaustive in the thorough tier, "
@@ -17,6 +17,18 @@ LEVEL_NOTE = ("diff laws proved for all lists (BS.Diff.diff_nil_iff_eq, diff_tra
 
 
 def gen(r, tier, sub):
+    if sub == "C16res":
+        # Result arguments: invocations that depend on each other along paths of different lengths, consumed together on
+        # clusters where a worker has compiled none of them (the worker must receive the dependencies first)
+        import sys, os
+        sys.path.insert(0, os.path.dirname(os.path.dirname(os.path.abspath(__file__))))
+        import props.c12 as c12
+        alld = [c for c in c12.directed() if c.startswith("bm")]
+        if tier == "quick":
+            alld = [c for c in alld if r.below(4) == 0]
+        for c in alld:
+            yield c
+        return
     if sub == "C16e2e":
         # exhaustive: every combination of pointer / map / slice argument shapes (value, typed nil, untyped nil) and the
         # two never-encodable parameter types, on the local executor and two bigmachine configurations
